@@ -9,6 +9,7 @@ import (
 	_ "verif/c08"
 	_ "verif/c09"
 	_ "verif/c10"
+	_ "verif/c11"
 	_ "verif/c14"
 	_ "verif/c15"
 )
